@@ -46,6 +46,8 @@ pub struct GenCfg {
     pub cost_mag: i64,
     /// connector kind (0 matrix / 1 raw / 2 dual); None = random among allowed
     pub kind: Option<u8>,
+    /// always add a large family of homographs (postings width boundaries)
+    pub big_homographs: bool,
 }
 
 impl Default for GenCfg {
@@ -57,6 +59,7 @@ impl Default for GenCfg {
             max_ids: 4,
             cost_mag: 40,
             kind: Some(0),
+            big_homographs: false,
         }
     }
 }
@@ -342,7 +345,20 @@ pub fn gen_dict(rng: &mut Rng, cfg: &GenCfg) -> DictSrc {
     let unk = gen_unk(rng, &cates, cfg, nl, nr);
     let mut pool = vec![];
     let nrows = 1 + rng.below(8);
-    let lex = gen_lex_rows(rng, nrows, nl, nr, cfg.cost_mag, !cfg.space_pre, &mut pool);
+    let mut lex = gen_lex_rows(rng, nrows, nl, nr, cfg.cost_mag, !cfg.space_pre, &mut pool);
+    // width boundaries of the postings lists: a large family of homographs (>= 256 rows of one surface)
+    if (cfg.big_homographs || rng.chance(1, 25)) && !pool.is_empty() {
+        let surf = pool[rng.below(pool.len())].clone();
+        let n = *rng.pick(&[255usize, 256, 257, 300, 513]);
+        let cell = if surf.contains(',') || surf.contains('"') {
+            format!("\"{}\"", surf.replace('"', "\"\""))
+        } else {
+            surf.clone()
+        };
+        for i in 0..n {
+            lex.push_str(&format!("{cell},{},{},{},h{i}\n", rng.below(nl), rng.below(nr), small_cost(rng, cfg.cost_mag)));
+        }
+    }
     let (matrix, right, left, cost) = if kind == 0 {
         (gen_matrix(rng, nr, nl, cfg.cost_mag), String::new(), String::new(), String::new())
     } else {
